@@ -3,7 +3,7 @@
 cd "$(dirname "$0")"
 pid="$1"; tier="${2:-quick}"; src="${3:-/tmp/seed/$pid}"
 scratch="$(mktemp -d /tmp/qrv-seed-XXXXXX)"; mkdir -p "$scratch/home"
-cp -r /repo/quantarhei "$scratch/quantarhei"
+cp -r /repo/quantarhei "$scratch/quantarhei"; cp -r /repo/tests "$scratch/tests"
 ( cd "$scratch" && HOME="$scratch/home" PYTHONPATH="$scratch" timeout 600 /venv/bin/python -W ignore "$src/demo.py" >/dev/null 2>&1 ); r0=$?
 if ! (cd "$scratch" && patch -p1 --quiet < "$src/patch.diff"); then echo "$pid: patch does not apply"; rm -rf "$scratch"; exit 3; fi
 ( cd "$scratch" && HOME="$scratch/home" PYTHONPATH="$scratch" timeout 600 /venv/bin/python -W ignore "$src/demo.py" >/dev/null 2>&1 ); r1=$?
